@@ -332,4 +332,14 @@ Section C02Model.
     map (fun a => let p0 := v3sub O (a_pos a) c in
                   v3add O (if rotate_on then rotate q p0 else p0) rc) g.
   Definition flat_coords (l : list V3) : list T := flat_map (fun p => let '(x, y, z) := p in [x; y; z]) l.
+  (* ---------------------------------------------------------------- rmsd with atomPermutation (symmetry-adapted RMSD):
+     the group is fitted on the reference as listed; the sum of squares is then taken against the reference and against
+     each permuted copy ref_k[i] = ref[perm_k[i]], and the smallest one is kept (strict comparison, first one wins) *)
+  Definition perm_sum (pos ref : list V3) (perm : list nat) : T :=
+    lsum (fun t : V3 * nat => v3norm2 O (v3sub O (fst t) (nth (snd t) ref vzero))) (combine pos perm).
+  Definition min_sum (s0 : T) (l : list T) : T := fold_left (fun m v => if nltb O v m then v else m) l s0.
+  Definition cv_rmsd_perm (q : Q4) (ref : list V3) (perms : list (list nat)) (g : list atom) : T :=
+    let pos := fit_positions q ref g in
+    let s0 := lsum (fun pr => v3norm2 O (v3sub O (fst pr) (snd pr))) (combine pos ref) in
+    nsqrt O (min_sum s0 (map (perm_sum pos ref) perms) / nofnat (length g)).
 End C02Model.
